@@ -13,6 +13,12 @@ CONSTANTS
   Ops = {"CtxRegister", "CtxDeregister", "Dispatch", "ModRegister", "ModStart", "DropRef", "CtxQuit", "ModDeregister", "ModPause", "ModResume", "ModStop", "Subscribe", "Unsubscribe"}
   CbOps = {"ModStop", "CtxQuit"}
   EvalVals = {TRUE}
+  Prios = {"N"}
+  BatchSizes = {}
+  UnstashNs = {}
+  HandlerIds = {}
+  Targets = {"A", "B"}
+  AutoVals = {TRUE, FALSE}
   Senders = {"A", "B"}
   QuitCodes = {0, 1}
   Setup = ""
